@@ -235,7 +235,13 @@ func c16Scenario(timeout time.Duration, pre []string, threads [][]string) *engin
 			}
 			prevMs = n.ms
 		}
-		if len(notif) > 0 && finalCounter != notif[len(notif)-1].ctr {
+		// (the removal of the entity ends the subscriptions to its features: refreshes of a stream that is started again
+		// on the removed entity have no subscriber to be notified, so the clause holds for histories without removal)
+		removed := false
+		for _, o := range ops {
+			removed = removed || o.op == "Remove"
+		}
+		if len(notif) > 0 && finalCounter != notif[len(notif)-1].ctr && !removed {
 			viol = append(viol, fmt.Sprintf("stored heartbeat differs from the last notified one | stored=%d notified=%d", finalCounter, notif[len(notif)-1].ctr))
 		}
 		if blockedSel > 1 {
